@@ -83,6 +83,11 @@ func (h *DirHandler) AddOut(msg *fbb.Message) error {
 func (h *DirHandler) ProcessInbound(msgs ...*fbb.Message) (err error) {
 	dir := path.Join(h.MBoxPath, DIR_INBOX)
 	for _, m := range msgs {
+		// The MID is chosen by the remote and is used as file name.
+		if !validMID(m.MID()) {
+			return fmt.Errorf("Refusing to store received message with invalid MID %q", m.MID())
+		}
+
 		filename := path.Join(dir, m.MID()+Ext)
 
 		m.Header.Set("X-Unread", "true")
@@ -97,6 +102,11 @@ func (h *DirHandler) ProcessInbound(msgs ...*fbb.Message) (err error) {
 		}
 	}
 	return
+}
+
+// validMID reports whether mid can safely be used as a file name inside the mailbox.
+func validMID(mid string) bool {
+	return mid != "" && !strings.ContainsAny(mid, "/\\\x00")
 }
 
 func (h *DirHandler) GetInboundAnswer(p fbb.Proposal) fbb.ProposalAnswer {
